@@ -59,7 +59,7 @@ func purgeFile(dirname string, suffix string, max uint, interval time.Duration, 
 				if err != nil {
 					break
 				}
-				verifCrashPoint("pg.remove.before")
+				verifCrashPoint("pg.remove.before", uint64(len(suffix)))
 				if err = os.Remove(f); err != nil {
 					errC <- err
 					return
@@ -69,7 +69,7 @@ func purgeFile(dirname string, suffix string, max uint, interval time.Duration, 
 					errC <- err
 					return
 				}
-				verifCrashPoint("pg.remove.after")
+				verifCrashPoint("pg.remove.after", uint64(len(suffix)))
 				plog.Infof("purged file %s successfully", f)
 				newfnames = newfnames[1:]
 			}
